@@ -267,6 +267,58 @@ def make_async_lazy(pid, macro, steps, idx):
     return Program(pid, text, "    " + "\n    ".join(L), items=items, desc=dict(macro=macro, options=opts, steps=steps), group="async-lazy/" + macro, role=dict(kind=macro), unwind=12, weight=3, solo=(steps > 1))
 
 
+JOINER_SHAPES = ["qualified", "assoc", "turbofish", "module", "turbofish_qualified"]
+
+
+def make_joiner_shape(pid, macro, shape, idx):
+    """the joiner *function* written as every kind of path expression that names a function: `<T as Trait>::f`, `T::f`, `f::<A, B>`,
+    `self::m::f`, `<T as Trait>::f::<A>` - two branches, two joined steps: invoked once per step, with the active branches in order"""
+    is_async, is_try, is_spawn = KINDS[macro]
+    el = "Result<u8, u8>" if is_try else "u8"
+    mark = (lambda v, m: "%s.map(|x| x ^ %d)" % (v, m)) if is_try else (lambda v, m: "%s ^ %d" % (v, m))
+    body = "{ ev(%d); (%s, %s) }" % (J_EV, mark("a", MARK[0]), mark("b", MARK[1]))
+    sig = "(a: %s, b: %s) -> (%s, %s)" % (el, el, el, el)
+    T, TR, M = "Jt_%s" % pid, "JTr_%s" % pid, "jm_%s" % pid
+    if shape == "qualified":
+        items = "struct %s; trait %s { fn jn%s; } impl %s for %s { fn jn%s %s }" % (T, TR, sig, TR, T, sig, body)
+        j = "<%s as %s>::jn" % (T, TR)
+    elif shape == "assoc":
+        items = "struct %s; impl %s { fn jn%s %s }" % (T, T, sig, body)
+        j = "%s::jn" % T
+    elif shape == "turbofish":
+        items = "fn jg_%s<A, B>(a: A, b: B) -> (A, B) { ev(%d); (a, b) }" % (pid, J_EV)
+        j = "jg_%s::<%s, %s>" % (pid, el, el)
+    elif shape == "module":
+        items = "mod %s { use crate::rt::*; pub fn jn%s %s }" % (M, sig, body)
+        j = "self::%s::jn" % M
+    else:
+        items = "struct %s; trait %s { fn jn<A>(a: A, b: %s) -> (A, %s); } impl %s for %s { fn jn<A>(a: A, b: %s) -> (A, %s) { ev(%d); (a, %s) } }" % (T, TR, el, el, TR, T, el, el, J_EV, mark("b", MARK[1]))
+        j = "<%s as %s>::jn::<%s>" % (T, TR, el)
+    marked = {"qualified": (True, True), "assoc": (True, True), "turbofish": (False, False), "module": (True, True), "turbofish_qualified": (False, True)}[shape]
+    w = (lambda x: "mk(true, %s)" % x) if is_try else (lambda x: x)
+    step = (lambda k, q: "~-> move |v: u8| { ev(%d); mk(true, v ^ %s) }" % (k, q)) if False else None
+    if is_try:
+        later = lambda k, q: "~|> move |v: u8| { ev(%d); v ^ %s }" % (k, q)
+    else:
+        later = lambda k, q: "~-> move |v: u8| { ev(%d); v ^ %s }" % (k, q)
+    opts = ["custom_joiner(%s)" % j]
+    if idx % 2:
+        opts.append("lazy_branches(false)")
+    if idx % 3 == 0:
+        opts.reverse()
+    text = "%s! {\n        %s\n        %s %s,\n        %s %s\n    }" % (macro, " ".join(opts), w("p0"), later(3, "q0"), w("p1"), later(4, "q1"))
+    msg = lambda t: "\"C16[%s]: %s\"" % (pid, t)
+    L = ["let p0 = u(); let p1 = u(); let q0 = u(); let q1 = u();", "let r = %s;" % text]
+    e0 = "p0 ^ q0" + (" ^ %d ^ %d" % (MARK[0], MARK[0]) if marked[0] else "")
+    e1 = "p1 ^ q1" + (" ^ %d ^ %d" % (MARK[1], MARK[1]) if marked[1] else "")
+    # (a mark applied in both steps cancels: the per-step marking is visible through the second-step callbacks' arguments instead)
+    L.append("vassert!(r == %s, %s);" % ("Ok((%s, %s))" % (e0, e1) if is_try else "(%s, %s)" % (e0, e1), msg("value")))
+    L.append("vassert!(cnt(%d) == 2 && cnt(3) == 1 && cnt(4) == 1, %s);" % (J_EV, msg("custom_joiner(j) with j any path expression naming a function: invoked exactly once per step with more than one active branch")))
+    L.append("vassert!(first(%d) < first(3) && first(%d) < first(4) && first(3) < last(%d) && first(4) < last(%d), %s);" % (J_EV, J_EV, J_EV, J_EV, msg("the joiner's output of step k is what step k+1 continues from")))
+    L.append("vcover!(true, \"end reached\");")
+    return Program(pid, text, "    " + "\n    ".join(L), items=items, desc=dict(macro=macro, joiner_written_as=j, shape=shape, options=opts), group="joiner-shape/" + shape, role=dict(kind=macro), unwind=12, weight=1)
+
+
 def orders(names, tier):
     perms = list(itertools.permutations(sorted(names)))
     if tier == "quick" and len(perms) > 2:
@@ -296,6 +348,12 @@ def programs(tier, seed):
         for k in range(2):
             i += 1
             ps.append(make_lazy_order("p%04d" % i, macro, i))
+    for k, shape in enumerate(JOINER_SHAPES):
+        for macro in ("join", "try_join"):
+            i += 1
+            if tier == "quick" and (k + i + seed) % 2:
+                continue
+            ps.append(make_joiner_shape("p%04d" % i, macro, shape, i))
     for macro in ("join_async", "try_join_async"):
         for steps in (1, 2):
             for k in range(2):
